@@ -6,6 +6,7 @@ reachable states (route without repeats, visited mask = set of the route, positi
 -/
 import JumanjiModel.Env.TSP.Lemmas
 import JumanjiModel.Env.TSP.Bounds
+import JumanjiModel.Env.TSP.SmallLemmas
 open Jm TSP
 
 namespace Props.C01
@@ -132,6 +133,56 @@ example : AllLegal 3 [[0, 1, 2], [1, 0, 1], [2, 1, 0]] (-5) true (reset 3 [[0, 0
   decide +kernel
 example : (play 3 [[0, 1, 2], [1, 0, 1], [2, 1, 0]] (-5) true (reset 3 [[0, 0], [1, 0], [2, 0]]).1 [1, 0, 2]).2 = -4 := by
   decide +kernel
+
+/-! #### every `n` (no `2 ≤ n`)
+
+`WrapOK n D` := `n = 1 → dist D 0 (−1) = dist D 0 0`: for a single city the closing leg of `DenseReward` gathers
+`coordinates[trajectory[0]]` with the stale `trajectory[0] = −1`; JAX wraps `−1` to city `n − 1 = 0`, so every
+table with `n` columns (`tsp_wrapOK_of_rows`, in particular `DistOK n D`) satisfies it.  No condition for `n ≠ 1`. -/
+
+theorem tsp_wrapOK_of_rows (n : Nat) (D : Dist) (h : ∀ row ∈ D, row.length = n) : WrapOK n D :=
+  TSP.wrapOK_of_rows n D h
+theorem tsp_wrapOK_of_distOK (n : Nat) (D : Dist) (h : DistOK n D) : WrapOK n D := TSP.wrapOK_of_distOK n D h
+
+/-- exact behaviour of the single-city instance, ANY table `D`: the one legal move ends the episode and is
+rewarded `−dist(city 0, city gathered by index −1)` (dense) resp. `−dist(city 0, city 0)` (sparse) -/
+theorem tsp_n1_exact (D : Dist) (pen : Rat) (s : State) (a : Nat) (hf : Feasible 1 s) (hl : legal s a) :
+    (step 1 D pen true s a).2.reward = [-(dist D 0 (-1))] ∧ (step 1 D pen false s a).2.reward = [-(dist D 0 0)] ∧
+    (step 1 D pen true s a).2.stepType = .last ∧ (step 1 D pen true s a).1.numVisited = 1 :=
+  ⟨(TSP.dense_n1_exact D pen s a hf hl).1, TSP.sparse_n1_exact D pen s a hf hl,
+   (TSP.dense_n1_exact D pen s a hf hl).2.1, (TSP.dense_n1_exact D pen s a hf hl).2.2⟩
+
+/-- `tsp_dense_telescopes` for every `n` -/
+theorem tsp_dense_telescopes_all (n : Nat) (D : Dist) (pen : Rat) (s : State) (a : Nat) (hw : WrapOK n D)
+    (hf : Feasible n s) (hl : legal s a) :
+    (step n D pen true s a).2.reward = [travelled n D s - travelled n D (step n D pen true s a).1] :=
+  TSP.dense_telescopes_all n D pen s a hw hf hl
+
+/-- `tsp_dense_return` for every `n` -/
+theorem tsp_dense_return_all (n : Nat) (D : Dist) (pen : Rat) (hw : WrapOK n D) (as : List Nat) (s : State)
+    (hf : Feasible n s) (hal : AllLegal n D pen true s as) :
+    (play n D pen true s as).2 = travelled n D s - travelled n D (play n D pen true s as).1 ∧
+    Feasible n (play n D pen true s as).1 := TSP.dense_return_all n D pen hw as s hf hal
+
+/-- `tsp_dense_eq_sparse` for every `n` (`n = 0`: only the empty episode; `n = 1`: the one-move episode) -/
+theorem tsp_dense_eq_sparse_all (n : Nat) (D : Dist) (pen : Rat) (hw : WrapOK n D) (coords : List (List Rat))
+    (as : List Nat) (hal : AllLegal n D pen true (reset n coords).1 as)
+    (hc : (play n D pen true (reset n coords).1 as).1.numVisited = (n : Int)) :
+    (play n D pen true (reset n coords).1 as).2 = objective D (play n D pen true (reset n coords).1 as).1 ∧
+    (play n D pen false (reset n coords).1 as).2 = (play n D pen true (reset n coords).1 as).2 :=
+  TSP.dense_eq_sparse_all n D pen hw coords as hal hc
+
+/-- the hypothesis `WrapOK` cannot be dropped: on the malformed 1 × 2 table `[[0, 5]]` the single move is rewarded
+`−5` while nothing is travelled (model-level: the code's table always has `n` columns) -/
+theorem tsp_n1_needs_shape :
+    Feasible 1 (reset 1 [[0, 0]]).1 ∧ legal (reset 1 [[0, 0]]).1 0 ∧
+    (step 1 [[0, 5]] (-2) true (reset 1 [[0, 0]]).1 0).2.reward = [-5] ∧
+    travelled 1 [[0, 5]] (reset 1 [[0, 0]]).1 -
+      travelled 1 [[0, 5]] (step 1 [[0, 5]] (-2) true (reset 1 [[0, 0]]).1 0).1 = 0 := TSP.dense_n1_needs_shape
+
+-- the hypotheses are satisfiable for n = 1: the complete one-move episode, return −D[0][0] = 0
+example : WrapOK 1 [[0]] ∧ AllLegal 1 [[0]] (-2) true (reset 1 [[1/2, 1/2]]).1 [0] ∧
+    (play 1 [[0]] (-2) true (reset 1 [[1/2, 1/2]]).1 [0]).1.numVisited = 1 := by decide +kernel
 end Props.C08
 
 namespace Props.C09
@@ -143,6 +194,12 @@ theorem tsp_step_eq_spec (n : Nat) (D : Dist) (pen : Rat) (dense : Bool) (s : St
     (hf : Feasible n s) (hrun : s.numVisited < n) (ha : a < n) :
     step n D pen dense s (a : Int) = stepSpec n D pen dense s a :=
   TSP.step_eq_spec n D pen dense s a hn hf hrun ha
+
+/-- the same for every `n` (for `n = 1` under `WrapOK`, see C08) -/
+theorem tsp_step_eq_spec_all (n : Nat) (D : Dist) (pen : Rat) (dense : Bool) (s : State) (a : Nat)
+    (hw : WrapOK n D) (hf : Feasible n s) (hrun : s.numVisited < n) (ha : a < n) :
+    step n D pen dense s (a : Int) = stepSpec n D pen dense s a :=
+  TSP.step_eq_spec_all n D pen dense s a hw hf hrun ha
 end Props.C09
 
 namespace Props.C11
